@@ -227,6 +227,10 @@ func (c *SyncMap) Restore(r io.Reader) (int, error) {
 			return n, err
 		}
 
+		if e.E != 0 {
+			c.t.notifyExpirationSet()
+		}
+
 		c.data.Store(string(e.K), &e)
 
 		n++
